@@ -324,6 +324,13 @@ def run_fuzz_arm(pid, arm, bins, tier, seed, res):
     base = os.path.join(RUN, pid, arm['name'] + '-fz', tier)
     shutil.rmtree(base, ignore_errors=True)
     seeds = [os.path.join(VERIF, d) for d in arm['fuzz'].get('corpus', []) if os.path.isdir(os.path.join(VERIF, d))]
+    if arm['fuzz'].get('corpus_builder'):
+        import corpus
+        cdir = os.path.join(base, 'seedcorpus')
+        os.makedirs(base, exist_ok=True)
+        getattr(corpus, arm['fuzz']['corpus_builder'])(cdir, bins.get('rc'), base_env(tier, arm.get('env')))
+        seeds.append(cdir)
+        res['labels']['seed_corpus_files:' + arm['name']] = len(os.listdir(cdir))
     seeds += [os.path.join(REPO, d) for d in arm['fuzz'].get('repo_corpus', []) if os.path.isdir(os.path.join(REPO, d))]
     procs = []
     for i in range(shards):
